@@ -192,6 +192,9 @@ def run(ctx):
     gbase = len(sigs)
     sigs = sigs + gsigs
     cases = [gen_case(rng, sigs, i, fn=(gbase + rng.randrange(len(gsigs))) if i % 10 == 3 else None) for i in range(n)]
+    for c in cases:
+        if rng.random() < 0.2:
+            c["ctxdone"] = True      # Run is handed a context that is already cancelled: same call, once, same error
     ctx.coverage["generic_instantiation_cases"] = sum(1 for c in cases if c["fn"] >= gbase)
     if ctx.replay and ctx.replay.get("case"):
         cases = [ctx.replay["case"]] + cases[:50]
